@@ -22,7 +22,7 @@ func (c14) Meta() fw.Meta {
 	return fw.Meta{
 		ID: "C14",
 		Rule: "case = 60 generated objects over all seven message kinds (header of a valid layout, time series incl. the absent/zero series and ranges wider than 2^31, point list, point, value, timestamp, duration incl. negative, archive info); " +
-			"values over float64 bit-pattern classes (+-0, denormals, +-Inf, quiet/signalling NaNs with payloads, random bits); for each object: decode(encode(x)) bit-equal with empty remainder; decode(encode(x)++tail) leaves a remainder that is byte-equal to tail and aliases the input; " +
+			"values over float64 bit-pattern classes (+-0, denormals, +-Inf, quiet/signalling NaNs with payloads, random bits); for each object: decode(encode(x)) bit-equal with empty remainder; decode(encode(x)++tail) leaves a remainder that is byte-equal to tail and the input bytes behind the message untouched; " +
 			"2-5 concatenated messages decode in sequence; EVERY proper prefix (all of them up to 2 KiB, boundaries +-2 and 64 random cuts above) yields *WantLargerBufferError with len(prefix) < wanted <= len(encoding) and the grow-to-wanted retry loop succeeds within 4 rounds. " +
 			"non-trivial = object with a non-empty payload (>= 1 value/point/archive) whose prefixes were all checked; distinct by encoding bytes.",
 		Assumptions: []string{
@@ -372,8 +372,12 @@ func c14CheckObj(c *fw.Ctx, r *rand.Rand, o codecObj) {
 		c.Violationf("tail-remainder:"+o.kind, fw.J{"kind": o.kind, "want_len": len(tail), "got_len": len(rest)}, "remainder after a %s is not the tail (len %d, want %d)", o.kind, len(rest), len(tail))
 		return
 	}
-	if len(rest) > 0 && &rest[0] != &buf[len(enc)] {
-		c.Violationf("tail-not-aliased:"+o.kind, fw.J{"kind": o.kind}, "remainder after a %s does not alias the input buffer", o.kind)
+	// (the statement demands an untouched remainder, not that it aliases the input: aliasing is only counted)
+	if len(rest) > 0 && &rest[0] == &buf[len(enc)] {
+		c.Count("tail_aliases_input", 1)
+	}
+	if !bytes.Equal(buf[len(enc):], tail) {
+		c.Violationf("tail-modified:"+o.kind, fw.J{"kind": o.kind}, "decoding a %s modified the bytes behind the message", o.kind)
 		return
 	}
 	c.Count("tail_alias_checked", 1)
